@@ -80,6 +80,32 @@ func keyString(v value, what string) string {
 	return string(b)
 }
 
+// keyStringFr is keyString for keys that may contain (at most two) symbolic
+// bytes: each is case-split over its 256 values (the store is keyed by
+// concrete strings).
+func keyStringFr(fr *frame, v value, what string) string {
+	s, ok := v.([]value)
+	if !ok {
+		return keyString(v, what)
+	}
+	nsym := 0
+	for i, e := range s {
+		if sv, isSym := e.(symInt); isSym {
+			nsym++
+			if nsym > 2 {
+				panic(abortPath{"unsupported", what + ": more than two symbolic key bytes"})
+			}
+			// the decision is taken on the term; the slice itself is left untouched
+			c := fr.concretize(sv, 255, what)
+			cp := make([]value, len(s))
+			copy(cp, s)
+			cp[i] = uint8(asInt64(c))
+			s = cp
+		}
+	}
+	return keyString(s, what)
+}
+
 func mutTreeOf(i *interpreter, v value) *treeModel {
 	p := derefPtr(v, "*iavl.MutableTree")
 	h, ok := i.heap[fmt.Sprintf("mut:%p", p)]
@@ -118,10 +144,10 @@ func iterateKV(fr *frame, kv *kvStore, start, end value, ascending bool, fn valu
 	var lo, hi string
 	hasLo, hasHi := false, false
 	if s, ok := start.([]value); ok && s != nil {
-		lo, hasLo = keyString(start, "IterateRange"), true
+		lo, hasLo = keyStringFr(fr, start, "IterateRange"), true
 	}
 	if s, ok := end.([]value); ok && s != nil {
-		hi, hasHi = keyString(end, "IterateRange"), true
+		hi, hasHi = keyStringFr(fr, end, "IterateRange"), true
 	}
 	var sel []string
 	for _, k := range keys {
@@ -256,7 +282,7 @@ func registerTree(e *Engine) {
 	})
 	R("(*github.com/cosmos/iavl.MutableTree).Set", func(fr *frame, a []value) value {
 		m := mutTreeOf(fr.i, a[0])
-		k := keyString(a[1], "MutableTree.Set")
+		k := keyStringFr(fr, a[1], "MutableTree.Set")
 		_, existed := m.working.m[k]
 		m.working.m[k] = a[2]
 		w := fr.i.writeLog()
@@ -265,7 +291,7 @@ func registerTree(e *Engine) {
 	})
 	R("(*github.com/cosmos/iavl.MutableTree).Remove", func(fr *frame, a []value) value {
 		m := mutTreeOf(fr.i, a[0])
-		k := keyString(a[1], "MutableTree.Remove")
+		k := keyStringFr(fr, a[1], "MutableTree.Remove")
 		old, existed := m.working.m[k]
 		delete(m.working.m, k)
 		w := fr.i.writeLog()
@@ -277,14 +303,14 @@ func registerTree(e *Engine) {
 	})
 	R("(*github.com/cosmos/iavl.MutableTree).Get", func(fr *frame, a []value) value {
 		m := mutTreeOf(fr.i, a[0])
-		v, ok := m.working.m[keyString(a[1], "MutableTree.Get")]
+		v, ok := m.working.m[keyStringFr(fr, a[1], "MutableTree.Get")]
 		if !ok {
 			return tuple{int64(0), []value(nil)}
 		}
 		return tuple{int64(0), v}
 	})
 	R("(*github.com/cosmos/iavl.MutableTree).Has", func(fr *frame, a []value) value {
-		_, ok := mutTreeOf(fr.i, a[0]).working.m[keyString(a[1], "MutableTree.Has")]
+		_, ok := mutTreeOf(fr.i, a[0]).working.m[keyStringFr(fr, a[1], "MutableTree.Has")]
 		return ok
 	})
 	R("(*github.com/cosmos/iavl.MutableTree).SaveVersion", func(fr *frame, a []value) value {
@@ -327,14 +353,14 @@ func registerTree(e *Engine) {
 
 	R("(*github.com/cosmos/iavl.ImmutableTree).Get", func(fr *frame, a []value) value {
 		t := immTree(a[0])
-		v, ok := t.kv.m[keyString(a[1], "ImmutableTree.Get")]
+		v, ok := t.kv.m[keyStringFr(fr, a[1], "ImmutableTree.Get")]
 		if !ok {
 			return tuple{int64(0), []value(nil)}
 		}
 		return tuple{int64(0), v}
 	})
 	R("(*github.com/cosmos/iavl.ImmutableTree).Has", func(fr *frame, a []value) value {
-		_, ok := immTree(a[0]).kv.m[keyString(a[1], "ImmutableTree.Has")]
+		_, ok := immTree(a[0]).kv.m[keyStringFr(fr, a[1], "ImmutableTree.Has")]
 		return ok
 	})
 	R("(*github.com/cosmos/iavl.ImmutableTree).Version", func(fr *frame, a []value) value { return immTree(a[0]).version })
@@ -369,19 +395,19 @@ func registerTree(e *Engine) {
 		return newMem(fr, fmt.Sprintf("memdb%d", n))
 	})
 	R("(*github.com/tendermint/tm-db.MemDB).Get", func(fr *frame, a []value) value {
-		v, ok := memOf(a[0]).kv.m[keyString(a[1], "DB.Get")]
+		v, ok := memOf(a[0]).kv.m[keyStringFr(fr, a[1], "DB.Get")]
 		if !ok {
 			return tuple{[]value(nil), iface{}}
 		}
 		return tuple{v, iface{}}
 	})
 	R("(*github.com/tendermint/tm-db.MemDB).Has", func(fr *frame, a []value) value {
-		_, ok := memOf(a[0]).kv.m[keyString(a[1], "DB.Has")]
+		_, ok := memOf(a[0]).kv.m[keyStringFr(fr, a[1], "DB.Has")]
 		return tuple{ok, iface{}}
 	})
 	setf := func(fr *frame, a []value) value {
 		h := memOf(a[0])
-		k := keyString(a[1], "DB.Set")
+		k := keyStringFr(fr, a[1], "DB.Set")
 		h.kv.m[k] = a[2]
 		w := fr.i.writeLog()
 		*w = append(*w, WriteRec{Store: h.name, Op: "set", Key: k, Val: a[2]})
@@ -391,7 +417,7 @@ func registerTree(e *Engine) {
 	R("(*github.com/tendermint/tm-db.MemDB).SetSync", setf)
 	delf := func(fr *frame, a []value) value {
 		h := memOf(a[0])
-		k := keyString(a[1], "DB.Delete")
+		k := keyStringFr(fr, a[1], "DB.Delete")
 		delete(h.kv.m, k)
 		w := fr.i.writeLog()
 		*w = append(*w, WriteRec{Store: h.name, Op: "remove", Key: k})
